@@ -16,7 +16,7 @@ claim("C01", "model_checking",
       SEQ_NOTE, "TLA+ spec CacheSeq/Resolve model-checked with TLC; behaviours replayed into the real Cache; recorded refreshes (replay + repository tests) trace-validated against RefreshTrace", "5 C01, 4.1, 4.2", "cacheseq")
 claim("C13", "model_checking",
       "Same state machine with faults at every position (syntax/semantic/empty/dangling files, directory missing, a file, below a file): TLC checks IsolationOK and the replay compares devices, GetErrors key set (must/may bounds), GetSpecErrors consistency and Refresh()'s error against the model after every refresh, including repairs; the auto-refresh histories are also executed with 'missing' concretised as ENOTDIR (a path below a regular file).",
-      SEQ_NOTE + " Unreadable (EACCES) directories are not generated (would need a uid switch).", "TLA+ spec CacheSeq (fault placements) model-checked with TLC; behaviours replayed into the real Cache", "5 C13", "cacheseq")
+      SEQ_NOTE + " Unreadable (EACCES) files and directories are replayed by a harness process that has switched to uid 65534 (needs the check to start as root, as in this sandbox; started unprivileged it runs as it is).", "TLA+ spec CacheSeq (fault placements, incl. permission faults) model-checked with TLC; behaviours replayed into the real Cache", "5 C13", "cacheseq")
 claim("C04", "model_checking",
       "Inject is an action of the CacheSeq state machine; for every request over resolvable/unknown/unqualified/empty/conflict-removed/shadowed names (with repetitions) the replay requires the exact miss list in order, an error, a byte-identical OCI spec, and the nil-spec refusal.",
       SEQ_NOTE, "TLA+ spec CacheSeq (Inject action) with TLC; replay into real InjectDevices with deep before/after comparison", "5 C04", "cacheseq")
